@@ -167,7 +167,7 @@ func (g *Gen) integer() int { return intPool[g.d(len(intPool), "int")] }
 // smallInt avoids magnitudes above 2^53 (index arguments that the framework parses through float64).
 func (g *Gen) smallInt() int { return intPool[g.d(len(intPool)-2, "int")] }
 
-var floatPool = []string{"0", "1", "-1", "1.5", "-2.25", "1e3", "3", "100", "-0.5", "1e-3", "123456789.125", "inf", "-inf", "+inf"}
+var floatPool = []string{"0", "1", "-1", "1.5", "-2.25", "1e3", "3", "100", "-0.5", "1e-3", "123456789.125", "inf", "-inf", "+inf", "-0", "-0.0", "-00"}
 
 func (g *Gen) float() (string, float64) {
 	s := floatPool[g.d(len(floatPool), "float")]
@@ -857,7 +857,9 @@ func (g *Gen) spoil(r *Req) {
 		r.Class = "ill:surplus"
 	case 2: // garbage in a random position
 		if len(a) > 1 {
-			a[1+g.d(len(a)-1, "pos")] = []string{"abc", "", "1.5x", "99999999999999999999", "(", "nan", "-"}[g.d(7, "junk")]
+			a[1+g.d(len(a)-1, "pos")] = []string{"abc", "", "1.5x", "99999999999999999999", "(", "nan", "-",
+				// words that mean something inside the framework (command names, reply and error texts)
+				"QUIT", "quit", "OK", "PONG", "not supported", "invalid", "stopped", "internal system error"}[g.d(15, "junk")]
 		}
 		r.Class = "ill:junk"
 	case 3: // only the name
